@@ -4,7 +4,7 @@ from . import helpers_rules as H
 from . import roundtrip as R
 
 META = {
-    'claim_added': "Also decided: is_scalar() without a type is True for every ScalarNode; set_value retags every core-tagged node and installs a fresh node; built nodes carry the plain tag of their kind; is_empty/seq_items read the whole list; int/float text is read by PyYAML's constructors and float text written by its representer. Round 3: the loader constructs core scalars with the SafeConstructor methods get_value uses (R14.12); set_value / set_attribute store the value they are given, independent of the old node (R14.13); attribute lookup compares key texts with the parameter itself (R14.14); the bool arm of get_value reads through PyYAML's table of boolean spellings. Round 6 (E14): caches on the code this property is about are invisible - no value that lives in a memo cell (dict / lazily filled attribute / lru_cache) is modified by the code it is handed to, the key of a cell contains every input its value depends on, no mutable parameter default is modified or handed out; given that, the program is analysed as if every lookup missed.",
+    'claim_added': "Also decided: is_scalar() without a type is True for every ScalarNode; set_value retags every core-tagged node and installs a fresh node; built nodes carry the plain tag of their kind; is_empty/seq_items read the whole list; int/float text is read by PyYAML's constructors and float text written by its representer. Round 3: the loader constructs core scalars with the SafeConstructor methods get_value uses (R14.12); set_value / set_attribute store the value they are given, independent of the old node (R14.13); attribute lookup compares key texts with the parameter itself (R14.14); the bool arm of get_value reads through PyYAML's table of boolean spellings. Round 6 (E14): caches on the code this property is about are invisible - no value that lives in a memo cell (dict / lazily filled attribute / lru_cache) is modified by the code it is handed to, the key of a cell contains every input its value depends on, no mutable parameter default is modified or handed out; given that, the program is analysed as if every lookup missed. Round 11: set_value(None) is not spelt str(None) (text:None); R14.17 - the key-renaming helpers overwrite key nodes in place, which leaks into another mapping that shares the key through an anchor (known findings F32a-c).",
     'level': 'other',
     'technique': 'static: table agreement (scalar_type_to_tag vs the tag arms of get_value / set_attribute / set_value / is_scalar), '
                  'isinstance-chain order, write-effect summaries of the accessors, position discipline of the pair-list operations '
@@ -39,5 +39,6 @@ def run(ctx):
     R3.r14_13_value_as_given(ctx)
     R3.r14_14_exact_key_match(ctx, 'R14.14')
     R3.r14_16_rename_keeps_keys_distinct(ctx)
+    R3.r14_17_key_nodes_not_written_in_place(ctx)
     from . import memo_rules as M
     M.memo_sound(ctx, 'R14.M')
